@@ -58,7 +58,7 @@ func (e *SessionTicketExtension) IsInitialized() bool {
 
 func (e *SessionTicketExtension) InitializeByUtls(session *SessionState, ticket []byte) {
 	uAssert(!e.Initialized, "tls: InitializeByUtls failed: the SessionTicketExtension is initialized")
-	uAssert(session.version == VersionTLS12 && session != nil && ticket != nil, "tls: InitializeByUtls failed: the session is not a tls 1.2 session")
+	uAssert(session != nil && session.version <= VersionTLS12 && ticket != nil, "tls: InitializeByUtls failed: the session is not a tls 1.2 session")
 	e.Session = session
 	e.Ticket = ticket
 	e.Initialized = true
